@@ -257,7 +257,9 @@ def saturation(data, max_voltage, v_per_sec=1e-8, fs=30_000, proportion=0.2, mut
     # if either of those reaches more than the proportion of channels labels the sample as saturated
     saturation = np.logical_or(saturation > proportion, n_diff_saturated > proportion)
     # apply a cosine taper to the saturation to create a mute function
-    win = scipy.signal.windows.cosine(mute_window_samples)
+    # the taper needs an odd length to have a unit sample at its centre: an even window would leave
+    # a non-zero gain on an isolated saturated sample
+    win = scipy.signal.windows.cosine(int(mute_window_samples) // 2 * 2 + 1)
     mute = np.maximum(0, 1 - scipy.signal.convolve(saturation, win, mode='same'))
     return saturation, mute
 
